@@ -2,6 +2,8 @@ package vc
 
 import (
 	"fmt"
+	"os"
+	"runtime/debug"
 	"go/ast"
 	"go/constant"
 	"go/token"
@@ -36,6 +38,9 @@ type SpecEnv struct {
 }
 
 func (env *SpecEnv) fail(format string, args ...interface{}) {
+	if os.Getenv("GOVC_DEBUG") != "" {
+		debug.PrintStack()
+	}
 	panic(Bail{Reason: "contract " + env.where + ": " + fmt.Sprintf(format, args...)})
 }
 
@@ -685,6 +690,14 @@ func (env *SpecEnv) call(n *ast.CallExpr) sv {
 		return r
 	case "implies":
 		a := env.Bool(n.Args[0])
+		if !a.IsConst() && env.st != nil {
+			// literals of the path condition decide many antecedents (e.g. `err == nil` on an error path)
+			if m := constFacts(env.st.PC); len(m) > 0 {
+				if a2 := c.Subst(a, m); a2.IsConst() {
+					a = a2
+				}
+			}
+		}
 		if a.IsFalse() {
 			return sv{V: c.True(), T: boolT}
 		}
@@ -839,8 +852,16 @@ func (env *SpecEnv) call(n *ast.CallExpr) sv {
 			env.fail("typeis of non-interface")
 		}
 		want := exprText(n.Args[1])
-		if iv.Dyn == nil {
-			return sv{V: c.False(), T: boolT}
+		if iv.Dyn == nil || iv.Opaque {
+			// dynamic type not known to the engine: an uninterpreted predicate of the value's identity
+			if iv.IsNil.IsTrue() {
+				return sv{V: c.False(), T: boolT}
+			}
+			id := iv.ID
+			if id == nil {
+				id = c.Fresh("ifaceid", BV(64))
+			}
+			return sv{V: c.And(c.Not(iv.IsNil), c.App("dyntype_is_"+sanitize(want), BoolS, id)), T: boolT}
 		}
 		got := shortType(iv.Dyn)
 		return sv{V: c.And(c.Not(iv.IsNil), c.Bool(got == want)), T: boolT}
